@@ -441,6 +441,9 @@ func oracleRun(in oracleInput) (evs []tr.M, nt []string) {
 				} else if r.Intn(4) == 0 {
 					key = fmt.Sprintf("m%d.%s", fresh, key)
 				}
+				if sc != nil {
+					key = sc.Key // a written history names the key itself (e.g. one that is taken on the addressed board)
+				}
 				ev["op"], ev["key"] = "create", key
 				var nk string
 				g2, nk, eerr = d2oracle.Create(g, bp, key)
